@@ -82,13 +82,15 @@ CHECKS = {
         "assumptions": ["R-sem is the specification"],
     },
     "C08": {
-        "runs": [_r("TestC08", 3000, 20000, race=True, qt=1500, tt=6000)],
+        "runs": [_r("TestC08", 3000, 20000, race=True, qt=1500, tt=6000), _r("TestC08Cycles", 1500, 20000, qt=600, tt=3000)],
         "rule": "rapid draws a world (generator G), a configuration (query cache on; engine default or weighted; breadth limit 1/2/10) and a history of "
                 "4-14 operations against the unchanged store on a fresh server: Check (sometimes a burst of 6 concurrent copies), BatchCheck, ListObjects, "
                 "with contexts, contextual tuples and requests derived from earlier ones (same request again, same subject/other object, same object/other "
                 "subject, other relation) so that cached sub-problems are reused under other paths. Oracle: every answer satisfies the reference semantics "
                 "(weighted engine with userset/wildcard subject: equals the same engine without caches). Non-trivial: some step was served with a cache hit "
-                "(counting cache wrapper) and the model has a non-direct rewrite. Distinct: hash of the case.",
+                "(counting cache wrapper) and the model has a non-direct rewrite. Distinct: hash of the case. Second run (TestC08Cycles): worlds with mutually "
+                "recursive relations (through a TTU or through usersets) whose tuples form cycles; one subject is asked about every (object, relation) of the "
+                "cycle in a drawn order (breadth limit 1 in half the cases) so that sub-results computed inside a cycle meet requests entering it elsewhere.",
         "level_text": "exploration of request histories over a caching server against the reference semantics; bursts run on the real scheduler (-race in thorough)",
         "technique": "property-based testing (rapid), stateful history vs reference semantics, counting cache wrapper for non-triviality",
         "assumptions": ["R-sem is the specification (= the uncached answer, see C01)", "fresh server per case: caches start empty"],
